@@ -752,6 +752,46 @@ fn exh(out: &mut Out, rng: &mut Rng, thorough: bool) {
 		}
 	}
 	out.raw(&format!("#STAT exh edge_bits=5,6 tuples checked against the harness oracle={}", n5));
+	// the range boundary with a concrete witness: headers searched so that the pseudo-edges just
+	// outside the range (nonce 2^edge_bits, 2^edge_bits + 1) would close a cycle with in-range
+	// edges; such a tuple is not a cycle of the header's graph and must be refused
+	let mut nb = 0u64;
+	for v in VARS.iter() {
+		for eb in [4u8, 5u8].iter() {
+			let n_edges = 1u64 << eb;
+			let want = if thorough { 6 } else { 2 };
+			let mut found = 0;
+			for _ in 0..(if thorough { 20000 } else { 4000 }) {
+				if found >= want {
+					break;
+				}
+				let seed = rng.next();
+				let keys = real_keys(&header(seed), None);
+				let eps: Vec<(u64, u64)> = (0..n_edges + 2).map(|n| v.ep(&keys, *eb, n)).collect();
+				let mut budget = 50_000u64;
+				let cs = find_cycles(*v, &eps, ps, &mut budget, 40);
+				let c = match cs.into_iter().find(|c| c.iter().any(|n| *n >= n_edges)) {
+					Some(c) => c,
+					None => continue,
+				};
+				found += 1;
+				nb += 1;
+				let r = Runner::new(*v, *eb, ps, ps, seed, true);
+				let mut t = c.clone();
+				t.sort_unstable();
+				let res = r.verify(&t, &mut stats, out);
+				stats.add(*v, res);
+				if res == "ok" {
+					out.raw(&oracle_fail_line(*v, *eb, ps, &r.keys, seed, &t, res, false, "out-of-range-nonce-closes-a-cycle"));
+				}
+				out.line(
+					&format!("pow verify {} {} {} {} {} {}", v.name(), eb, ps, ps, keys_str(&r.keys), nat_list(&t)),
+					res,
+				);
+			}
+		}
+	}
+	out.raw(&format!("#STAT exh boundary: tuples in which an out-of-range nonce closes a cycle with in-range edges={}", nb));
 	stats.print(out, "exh");
 }
 
